@@ -417,6 +417,8 @@ def _parse_config_section(
                     seen_paths=seen_paths,
                 )
         elif key == "disable_all":
+            if not isinstance(value, bool):
+                raise InvalidConfigOption("disable_all must be a boolean")
             disable_all_default_error_codes = value
         else:
             try:
